@@ -529,6 +529,8 @@ def get_atol():
 
 # ---------------------------------------------------------------------------
 def run_case(c):
+    if c.get('part') == 'C':
+        return run_case_c(c)
     if c['part'] == 'B':
         return run_case_b(c)
     return run_case_a(c)
@@ -823,6 +825,83 @@ NOTE_KEYS = ('film_rel', 'clad_res', 'gap_rel', 'shell_res', 'rad_share', 'annul
              'weight_dev_from_perimeter_fraction')
 
 
+# ---------------------------------------------------------------------------
+# Part C: several assemblies of one pin-model type swept together - the pin table each assembly
+# REPORTS after every axial step must be its own (own id, coolant column = average of ITS adjacent
+# subchannels, ordered temperatures), whatever its siblings do
+def cases_c(tier):
+    out = []
+    models = cases_b('quick')[:2]
+    seen = set()
+    for m in cases_b('quick'):
+        key = (m['fuel'], m['gap'])
+        if key in seen:
+            continue
+        seen.add(key)
+        for nasm in ((2, 3) if tier == 'quick' else (2, 3, 7)):
+            for rings in ((2,) if tier == 'quick' else (2, 3)):
+                c = dict(m, part='C', rings=rings, nasm=nasm, oftf=0.012 * rings + 0.006)
+                c.pop('field', None)
+                out.append(c)
+    return out
+
+
+def run_case_c(c):
+    r = new_result()
+    V = r['violations']
+    rings = c['rings']
+    scn, dsn = build_scenario(c, rings=rings, pd=c['pd'], wire=c['wire'], q=QB, pins='tilt', nsteps_len=0.2)
+    pos = S.core_positions(2)[:c['nasm']]
+    base_flow = scn['assign'][0][3]['flowrate']
+    scn['core']['pitch'] = round(c['oftf'] + 0.004, 9)
+    spec = scn['power']['asm']['1']
+    scn['assign'] = [['A', rg, p, {'flowrate': base_flow * (1.0 + 0.3 * i)}] for i, (rg, p) in enumerate(pos)]
+    scn['power']['asm'] = {str(S.asm_id(rg, p) + 1): dict(spec, q=QB * (1.0 + 0.5 * i), seed=i)
+                           for i, (rg, p) in enumerate(pos)}
+    with S.Built(scn) as b:
+        rx = b.reactor()
+        q = np.array([1.0 / 6.0, 0.25, 1.0 / 6.0])
+        rx.axial_step0()
+        n = min(len(rx.z) - 1, 25)
+        for i in range(1, n + 1):
+            rx.axial_step(rx.z[i], rx.dz[i - 1], i)
+            for a in rx.assemblies:
+                reg = a.active_region
+                if not hasattr(reg, 'pin_temps'):
+                    continue
+                sc = reg.subchannel
+                typ = sc.type[:sc.n_sc['coolant']['total']]
+                T = reg.temp['coolant_int']
+                pa = sc.pin_adj
+                want = np.array([sum(T[j] * q[typ[j]] for j in row if j >= 0) for row in pa])
+                got = reg.pin_temps[:, 3]
+                r['states'] += 1
+                dev = float(np.max(np.abs(got - want)))
+                if dev > 1e-9:
+                    V.append(violation('reported-pin-coolant', dict(c, asm=int(a.id)),
+                                       'after step %d the pin table reported by assembly %d does not hold the average '
+                                       'of ITS adjacent subchannels' % (i, a.id), dev, 0.0, 1e-9,
+                                       site='region_rodded.py:calculate_pin_temperatures'))
+                    break
+                if not np.all(reg.pin_temps[:, 0] == a.id):
+                    V.append(violation('reported-pin-id', dict(c, asm=int(a.id)),
+                                       'pin table of assembly %d carries another assembly id' % a.id,
+                                       float(reg.pin_temps[0, 0]), float(a.id)))
+                    break
+                row = reg.pin_temps[:, 3:]
+                if np.any(np.diff(row, axis=1) < -1e-9):
+                    V.append(violation('ordering', dict(c, asm=int(a.id)),
+                                       'reported pin temperatures of assembly %d are not ordered' % a.id))
+                    break
+            if V:
+                break
+        r['transitions'] = n * len(rx.assemblies)
+    r['traces'] = 1
+    r['nontrivial'] = True
+    r['outcome'] = 'ok' if not V else 'violation'
+    return r
+
+
 def main(run):
     run.rule = ('Part A: every tuple of the stated grid (pin size x clad thickness x gap x fuel x zones x '
                 'solid/annular); inside a case every (power column x environment) state and every step of '
@@ -845,6 +924,7 @@ def main(run):
     run.check_determinism(run_case, ca[0])
     ra = run.explore('pinmodel', ca, run_case, budget_s=120)
     rb = run.explore('region', cb, run_case, budget_s=300, chunksize=1)
+    run.explore('siblings', cases_c(run.tier), run_case, budget_s=300, chunksize=1)
     for res in ra + rb:
         for k in NOTE_KEYS:
             if res.get('info') and k in res['info']:
